@@ -85,6 +85,31 @@ class _Adv(object):
         return a
 
 
+def write_template(path, year, requested, values):
+    import argparse, contextlib, io
+    out = io.StringIO()
+    secs = sorted(set(list(requested) + [k.split('.')[0] for k in values]))
+    with contextlib.redirect_stdout(out):
+        for sec in secs:
+            try:
+                habutax.list_form_inputs(argparse.Namespace(form=sec, year=year))
+            except SystemExit:
+                pass
+            print()
+    lines = []
+    cur = None
+    for ln in out.getvalue().split('\n'):
+        m = re.match(r'^\[(.+)\]$', ln)
+        if m:
+            cur = m.group(1)
+        m = re.match(r'^#([^\s#=]+) =$', ln)
+        if m and cur and f'{cur}.{m.group(1)}' in values:
+            ln = f'{m.group(1)} = {values[cur + "." + m.group(1)]}'
+        lines.append(ln)
+    with open(path, 'w') as fh:
+        fh.write('\n'.join(lines))
+
+
 def read_ini(path):
     cp = configparser.ConfigParser()
     with open(path) as fh:
@@ -136,6 +161,10 @@ def session(year, base, start, k, kind, halfset=None):
         elif start == 'half':
             before = dict(halfset)
             cli.write_inputs(path, before)
+        elif start == 'template':
+            # the documented workflow: `habutax list-form-inputs` output with some values filled in (long file, comments)
+            before = dict(halfset)
+            write_template(path, year, base.requested, before)
         if state['kind'] is not None:
             habutax.forms.available_forms[year] = armed_forms(year, state)
         try:
@@ -196,24 +225,24 @@ def plan(year, base):
 def run(tier):
     run = runner.Run(PID, tier, 'fault_enumeration',
                      'sessions of the real habutax.solve(args) with --prompt-missing --writeback-input on base returns, from '
-                     '{no file, empty file, half the inputs}; every prompt index k x {Ctrl-C, Ctrl-C at the invalid-input re-prompt, '
+                     '{no file, empty file, half the inputs, the commented list-form-inputs template with half the inputs filled in}; every prompt index k x {Ctrl-C, Ctrl-C at the invalid-input re-prompt, '
                      'EOF, unsupported form reached after k answers, a line definition raising after k answers, Ctrl-C arriving while a line is being computed after k answers}; then a second run; '
                      'distinct = (year, base, start, kind, k) sessions in which the interruption actually happened')
     if tier == 'quick':
         sel = [(2023, 'B0-single-wage'), (2023, 'B6-nc'), (2022, 'B4-schedule1'), (2021, 'B0-single-wage')]
-        starts = ['none', 'half']
+        starts = ['none', 'half', 'template']
     else:
         sel = [(y, b.name) for y in (2021, 2022, 2023) for b in e3.bases_for(y)]
-        starts = ['none', 'empty', 'half']
+        starts = ['none', 'empty', 'half', 'template']
     items = []
     for year, bname in sel:
         base = _Adv(e3.base_by_name(bname, year))
         P, half = plan(year, base)
         for start in starts:
-            p = P - len(half) if start == 'half' else P
+            p = P - len(half) if start in ('half', 'template') else P
             for kind in KINDS:
                 for k in range(p + 1):
-                    items.append((year, bname, start, k, kind, half if start == 'half' else None))
+                    items.append((year, bname, start, k, kind, half if start in ('half', 'template') else None))
         run.extra.setdefault('sessions_planned', {})[f'{year}/{bname}'] = dict(prompts=P, half=len(half))
     items = runner.rotate(items, run.seed)
     n = hit = 0
@@ -242,5 +271,5 @@ def run(tier):
 def replay(case):
     base = _Adv(e3.base_by_name(case['base'], case['year']))
     P, half = plan(case['year'], base)
-    errs, info = session(case['year'], base, case['start'], case['k'], case['kind'], half if case['start'] == 'half' else None)
+    errs, info = session(case['year'], base, case['start'], case['k'], case['kind'], half if case['start'] in ('half', 'template') else None)
     return (not errs), (str(errs[:1]) if errs else f'passes {info}')
